@@ -24,7 +24,8 @@ META = {
         "_USE_CACHE, and the cached function reads nothing but its argument "
         "and constants. Not decided: histories as such."
         ' Also: class-level containers mutated through instances, cache lookup key is the raw input, parser input does not derive from committed results, frozen MasterConfig fallbacks.'
-        " Round 7: rule MEMO over the whole package - a result cache is keyed by everything the skipped computation reads (by value, not identity / length) and a hit restores every attribute a miss sets; lru_cache'd functions depend on their parameters only."),
+        " Round 7: rule MEMO over the whole package - a result cache is keyed by everything the skipped computation reads (by value, not identity / length) and a hit restores every attribute a miss sets; lru_cache'd functions depend on their parameters only."
+        ' Round 8: MEMO also sees last-key caches, chained stores and fills that ignore the condition of their look-up; a Config object is not rewritten in place.'),
     'families': ['ESCAPE', 'GLOBALS', 'PURITY', 'FORWARD', 'DEADPARAM', 'SIB-DEFAULTS'],
 }
 
